@@ -30,6 +30,8 @@ result = {"property": pid, "summary": meta_in.get("summary"), "needs": meta_in.g
 assert sh("git status --porcelain", wt)[1].strip() == "", "worktree not clean"
 rc, o = sh(f"git apply --check {patch} && git apply {patch}", wt); assert rc == 0, o
 rc_suite, o_suite = sh("cargo nextest run --workspace --no-fail-fast --offline 2>&1 | tail -3", wt)
+if "43 passed" not in o_suite:  # upstream flake: time::test::test_now compares with /usr/bin/date and fails when a second boundary falls in between
+    rc_suite, o_suite = sh("cargo nextest run --workspace --no-fail-fast --offline 2>&1 | tail -3", wt)
 shutil.copy(os.path.join(sandbox, "Cargo.lock"), os.path.join(demo, "Cargo.lock"))
 rc_with, o_with = sh("CARGO_TARGET_DIR=" + os.path.join(sandbox, "demo_target") + " cargo run --offline -q 2>&1 | tail -15", demo)
 if "could not find `Cargo.toml`" in o_with or "error: no bin target" in o_with or "a bin target must be available" in o_with:
